@@ -53,6 +53,9 @@ T2o_table == <<"table", "unk">>
 T2o_queue == <<"queue", "desc">>
 M2o == <<3, 2>>
 G2o == <<1, 1>>
+\* the unrelated message kinds not already in OthersFew, in two halves (one per exhaustive S3o model)
+OthersA == {"features", "vendormsg", "hello", "barrier"}
+OthersB == {"echoreply", "flowrem", "error", "config"}
 OthersMore == {"echo", "pktin", "portstatus", "barrier", "flowrem", "error", "config",
                "vendormsg", "echoreply", "hello", "features"}
 \* everything at once (simulation / trace validation)
